@@ -40,6 +40,10 @@ def make_sut(cfg):
     m = _imports()
     if cfg["kind"] == "toy":
         return m["Memory"](m["AddressingType"].HALF_WORD, 12, address_range=range(4096)), None
+    if cfg["kind"] == "flat-full":
+        # the same store without a lower bound (first data address 0): every cell of a multi-cell access
+        # wraps modulo 2^32 on its own
+        return m["Memory"](m["AddressingType"].BYTE, 32, True), None
     mem = m["Memory"](m["AddressingType"].BYTE, 32, True, range(DATA_MIN, 2**32))
     if cfg["kind"] == "flat":
         return mem, None
@@ -462,6 +466,9 @@ def exec_flat(trace, prop) -> Result:
     if toy:
         model = ByteStore(0, 4096, None, 16)
         cw = 2
+    elif cfg["kind"] == "flat-full":
+        model = ByteStore(0, 2**32, 2**32, 8)
+        cw = 1
     else:
         model = ByteStore(DATA_MIN, 2**32, 2**32, 8)
         cw = 1
